@@ -72,6 +72,11 @@ def run_one(sc):
         files = []
         paths = []
         for i, kind in enumerate(c["kinds"], 1):
+            if c.get("same") == "dupfirst" and i == len(c["kinds"]) and i >= 2:
+                # the same path listed again: one image shown on two pages
+                paths.append(paths[0])
+                files.append(dict(files[0]))
+                continue
             size = rng.choice(sc["sizes"])
             data, w, h = make_image(kind, rng, size)
             p = os.path.join(tmp, "fig%d%s" % (i, rng.choice(SUFFIX[kind])))
